@@ -8,9 +8,11 @@ CLAIM = {
                "model tied by differential execution incl. one generated file per component owner; exact-rational Go oracle for the value clause",
   "text": "Partial proof. Proved: bit slices are consecutive slices of the whole (multi-word) container from the least significant bit (k <= 32; every profile component is 1..32 "
           "bits: Inst sweep); accumulating components yield the running total mod 2^32 of a wrapping k-bit counter across messages; expansion only appends marked fields and only "
-          "changes values of existing fields, so turning it off yields the same messages minus the expanded fields. Decided per run, not by theorem: the value of every expanded "
+          "changes values of existing fields, so turning it off yields the same messages minus the expanded fields; a field that is no destination -- whose number no component of any "
+          "field or sub-field of the message in the factory table expands into -- is after expansion at the same position and identical, whatever the values, the accumulator "
+          "history, the sub-field substitutions chosen and the nesting depth (C05_non_destination_unchanged). Decided per run, not by theorem: the value of every expanded "
           "field against ((bits/cscale - coffset) + doffset) x dscale in exact rational arithmetic (exact when integral, within one unit otherwise), for all 40 component owners, "
-          "random/boundary containers and accumulator histories; and that a wire field that is no destination is unchanged.",
+          "random/boundary containers and accumulator histories.",
   "note": NOTE_COMMON + " Scaling uses Coq primitive floats (binary64 = Go float64 on amd64); conversion mode translated from decoder.go (gen/ConvMode.v)."}
 
 
